@@ -313,6 +313,7 @@ type player struct {
 	serialFailsLeft map[int]int
 	peerSeq   map[int]int
 	peerEnded map[[2]int]bool
+	kept      []keptFrame // frames delivered in events (consumer goroutine only until the scenario is over)
 	nodeA     atomic.Pointer[gomavlib.Node] // what the hooks see (unset while the deprecated constructor is still running)
 	pktConns  map[int]net.PacketConn // fake UDP server of a udp_client endpoint / listener of a udp_broadcast endpoint
 	udpSrc    map[string]int         // udp_client: source address of the node's socket -> channel instance
@@ -560,6 +561,14 @@ func (p *player) consumer() {
 				switch {
 				case errors.Is(e.Error, errInjected):
 					cause = "injected"
+				case errors.Is(e.Error, os.ErrDeadlineExceeded):
+					cause = "deadline"
+				case errors.Is(e.Error, io.ErrUnexpectedEOF):
+					cause = "unexpected_eof"
+				case errors.Is(e.Error, io.ErrClosedPipe):
+					cause = "closed_pipe"
+				case errors.Is(e.Error, net.ErrClosed):
+					cause = "net_closed"
 				case errors.Is(e.Error, errClosedT):
 					cause = "closed"
 				case errors.Is(e.Error, io.EOF):
@@ -589,6 +598,13 @@ func (p *player) consumer() {
 			}
 			p.rec.Put(M{"e": "Ev", "type": "frame", "ep": ep, "inst": inst, "tag": tag, "id": id, "autopilot": ap,
 				"sys": int(e.SystemID()), "comp": int(e.ComponentID()), "t": p.ms()})
+			// what was delivered belongs to the application: it is looked at again when the scenario is over
+			kf := keptFrame{fr: e.Frame, digest: frameDigest(e.Frame)}
+			p.mu.Lock()
+			if len(p.kept) < 4000 {
+				p.kept = append(p.kept, kf)
+			}
+			p.mu.Unlock()
 			if p.closeFromLoopOn != 0 && tag == p.closeFromLoopOn {
 				p.doClose("event_loop")
 			}
@@ -738,6 +754,32 @@ func (p *player) acceptLoop(ep int, l net.Listener) {
 }
 
 var _ = runtime.NumGoroutine
+
+type keptFrame struct {
+	fr     frame.Frame
+	digest string
+}
+
+// frameDigest renders everything a frame carries (header fields, message content, checksum, signature block).
+func frameDigest(fr frame.Frame) (d string) {
+	defer func() {
+		if r := recover(); r != nil {
+			d = fmt.Sprint("panic:", r)
+		}
+	}()
+	s := fmt.Sprintf("%T sys=%d comp=%d id=%d msg=%+v", fr, fr.GetSystemID(), fr.GetComponentID(), fr.GetMessage().GetID(), fr.GetMessage())
+	switch f := fr.(type) {
+	case *frame.V1Frame:
+		s += fmt.Sprintf(" seq=%d ck=%d", f.SequenceNumber, f.Checksum)
+	case *frame.V2Frame:
+		s += fmt.Sprintf(" seq=%d ck=%d if=%d cf=%d link=%d ts=%d", f.SequenceNumber, f.Checksum, f.IncompatibilityFlag,
+			f.CompatibilityFlag, f.SignatureLinkID, f.SignatureTimestamp)
+		if f.Signature != nil {
+			s += fmt.Sprintf(" sig=%x", f.Signature[:])
+		}
+	}
+	return s
+}
 
 // pktPeer lets the feed step write datagrams to the node through the fake server's own socket.
 type pktPeer struct {
